@@ -29,6 +29,8 @@ def init : Ledger := { nextId := 0, live := [], objs := [], nextHandle := 0 }
 
 inductive Call where
   | bufferTest
+  | rndBundle (bytes : Bytes)      -- `helper_rnd_bundle`: a buffer holding the encoding of a random bundle
+  | working                        -- `bp7_working`: no allocation
   | fromCbor (bytes : Bytes)
   | newBundle (b : Bundle)          -- `bundle_new_default` (the bundle it builds is computed by the caller of the model)
   | toCbor (h : Nat)
@@ -78,6 +80,8 @@ def release (s : Ledger) (h : Nat) (ids : List Nat) : Ledger :=
 /-- `pinned = true`: the frees as on the pinned tree (buffer data and metadata struct leak) -/
 def step (pinned : Bool) (s : Ledger) : Call → Ledger × Out
   | .bufferTest => newBuffer s [0x42, 0x43, 0x44, 0x45]
+  | .rndBundle bytes => newBuffer s bytes
+  | .working => (s, .bool true)
   | .fromCbor bytes =>
     (match decodeBundle bytes with
      | .ok b => if b.isValid then let (s', h) := addObj s (Obj.bundle b) 1; (s', .handle h) else (s, .null)
